@@ -1,0 +1,185 @@
+//go:build verif
+
+package tls
+
+// Verification hook for property C01 (parsers of untrusted bytes never panic or hang).
+// Add-only; built only with -tags verif.
+
+// zvC01New returns a fresh message value for a handshake-message kind.
+func zvC01New(kind string) handshakeMessage {
+	switch kind {
+	case "clientHello":
+		return &clientHelloMsg{}
+	case "serverHello":
+		return &serverHelloMsg{}
+	case "finished":
+		return &finishedMsg{}
+	case "certificate":
+		return &certificateMsg{}
+	case "certificateRequest":
+		return &certificateRequestMsg{}
+	case "certificateRequest12":
+		return &certificateRequestMsg{hasSignatureAlgorithm: true}
+	case "certificateVerify":
+		return &certificateVerifyMsg{}
+	case "certificateVerify12":
+		return &certificateVerifyMsg{hasSignatureAlgorithm: true}
+	case "certificateStatus":
+		return &certificateStatusMsg{}
+	case "clientKeyExchange":
+		return &clientKeyExchangeMsg{}
+	case "serverKeyExchange":
+		return &serverKeyExchangeMsg{}
+	case "serverHelloDone":
+		return &serverHelloDoneMsg{}
+	case "helloRequest":
+		return &helloRequestMsg{}
+	case "newSessionTicket":
+		return &newSessionTicketMsg{}
+	case "sessionState":
+		return &sessionState{}
+	case "sessionStateTLS13":
+		return &sessionStateTLS13{}
+	case "encryptedExtensions":
+		return &encryptedExtensionsMsg{}
+	case "endOfEarlyData":
+		return &endOfEarlyDataMsg{}
+	case "keyUpdate":
+		return &keyUpdateMsg{}
+	case "newSessionTicketTLS13":
+		return &newSessionTicketMsgTLS13{}
+	case "certificateRequestTLS13":
+		return &certificateRequestMsgTLS13{}
+	case "certificateTLS13":
+		return &certificateMsgTLS13{}
+	}
+	return nil
+}
+
+// ZVC01Kinds lists the message kinds understood by ZVC01Unmarshal.
+func ZVC01Kinds() []string {
+	return []string{"clientHello", "serverHello", "finished", "certificate", "certificateRequest",
+		"certificateRequest12", "certificateVerify", "certificateVerify12", "certificateStatus",
+		"clientKeyExchange", "serverKeyExchange", "serverHelloDone", "helloRequest", "newSessionTicket",
+		"sessionState", "sessionStateTLS13", "encryptedExtensions", "endOfEarlyData", "keyUpdate",
+		"newSessionTicketTLS13", "certificateRequestTLS13", "certificateTLS13"}
+}
+
+// ZVC01Unmarshal runs the real unmarshal method of the message kind on data.
+// known=false when the kind does not exist. When the message was accepted it is
+// marshalled again (the code paths that re-serialise a parsed message).
+func ZVC01Unmarshal(kind string, data []byte) (ok bool, known bool) {
+	m := zvC01New(kind)
+	if m == nil {
+		return false, false
+	}
+	ok = m.unmarshal(data)
+	if ok {
+		_ = m.marshal()
+	}
+	return ok, true
+}
+
+// ZVC01Samples returns well-formed wire encodings of one populated message per kind,
+// produced by the real marshal methods (seeds for structure-aware mutation).
+// src supplies arbitrary filler bytes.
+func ZVC01Samples(src func(n int) []byte) map[string][]byte {
+	u16s := func(n int) []uint16 {
+		b := src(2 * n)
+		r := make([]uint16, n)
+		for i := range r {
+			r[i] = uint16(b[2*i])<<8 | uint16(b[2*i+1])
+		}
+		return r
+	}
+	schemes := func(n int) []SignatureScheme {
+		var r []SignatureScheme
+		for _, v := range u16s(n) {
+			r = append(r, SignatureScheme(v))
+		}
+		return r
+	}
+	curves := func(n int) []CurveID {
+		var r []CurveID
+		for _, v := range u16s(n) {
+			r = append(r, CurveID(v|1))
+		}
+		return r
+	}
+	n := func(max int) int { return int(src(1)[0]) % (max + 1) }
+	out := map[string][]byte{}
+	ch := &clientHelloMsg{
+		vers: VersionTLS12, random: src(32), sessionId: src(n(32)),
+		cipherSuites: u16s(1 + n(20)), compressionMethods: src(1 + n(3)),
+		serverName: "host" + string(rune('a'+n(25))) + ".example.org", ocspStapling: n(1) == 1,
+		supportedCurves: curves(1 + n(5)), supportedPoints: src(1 + n(3)),
+		ticketSupported: true, sessionTicket: src(n(40)),
+		supportedSignatureAlgorithms: schemes(1 + n(6)), supportedSignatureAlgorithmsCert: schemes(1 + n(4)),
+		secureRenegotiationSupported: true, secureRenegotiation: src(n(12)),
+		extendedMasterSecret: n(1) == 1, sctEnabled: n(1) == 1, scts: n(1) == 1,
+		alpnProtocols: []string{"h2", "http/1.1"},
+		supportedVersions: []uint16{VersionTLS13, VersionTLS12}, cookie: src(1 + n(10)),
+		keyShares:     []keyShare{{group: X25519, data: src(32)}, {group: CurveP256, data: src(65)}},
+		earlyData:     n(1) == 1,
+		pskModes:      []uint8{1},
+		pskIdentities: []pskIdentity{{label: src(1 + n(16)), obfuscatedTicketAge: 7}},
+		pskBinders:    [][]byte{src(32)},
+	}
+	for i, c := range ch.cipherSuites {
+		if c == scsvRenegotiation {
+			ch.cipherSuites[i] = c + 1
+		}
+	}
+	out["clientHello"] = ch.marshal()
+	sh := &serverHelloMsg{
+		vers: VersionTLS12, random: src(32), sessionId: src(n(32)), cipherSuite: u16s(1)[0],
+		compressionMethod: 0, ocspStapling: n(1) == 1, ticketSupported: n(1) == 1,
+		secureRenegotiationSupported: true, secureRenegotiation: src(n(12)),
+		extendedMasterSecret: n(1) == 1, alpnProtocol: "h2", scts: [][]byte{src(1 + n(30)), src(1 + n(30))},
+		supportedPoints: src(1 + n(3)),
+	}
+	out["serverHello"] = sh.marshal()
+	sh13 := &serverHelloMsg{
+		vers: VersionTLS12, random: src(32), sessionId: src(32), cipherSuite: TLS_AES_128_GCM_SHA256,
+		supportedVersion: VersionTLS13, serverShare: keyShare{group: X25519, data: src(32)},
+		selectedIdentityPresent: true, selectedIdentity: 0,
+	}
+	out["serverHello#13"] = sh13.marshal()
+	hrr := &serverHelloMsg{
+		vers: VersionTLS12, random: src(32), sessionId: src(32), cipherSuite: TLS_AES_128_GCM_SHA256,
+		supportedVersion: VersionTLS13, cookie: src(1 + n(20)), selectedGroup: CurveP256,
+	}
+	out["serverHello#hrr"] = hrr.marshal()
+	out["finished"] = (&finishedMsg{verifyData: src(12)}).marshal()
+	out["certificate"] = (&certificateMsg{certificates: [][]byte{src(1 + n(60)), src(1 + n(60)), src(1 + n(10))}}).marshal()
+	out["certificateRequest"] = (&certificateRequestMsg{certificateTypes: src(1 + n(3)),
+		certificateAuthorities: [][]byte{src(1 + n(30)), src(1 + n(30))}}).marshal()
+	out["certificateRequest12"] = (&certificateRequestMsg{hasSignatureAlgorithm: true, certificateTypes: src(1 + n(3)),
+		supportedSignatureAlgorithms: schemes(1 + n(6)),
+		certificateAuthorities:       [][]byte{src(1 + n(30)), src(1 + n(30))}}).marshal()
+	out["certificateVerify"] = (&certificateVerifyMsg{signature: src(1 + n(70))}).marshal()
+	out["certificateVerify12"] = (&certificateVerifyMsg{hasSignatureAlgorithm: true, signatureAlgorithm: PKCS1WithSHA256,
+		signature: src(1 + n(70))}).marshal()
+	out["certificateStatus"] = (&certificateStatusMsg{response: src(1 + n(50))}).marshal()
+	out["clientKeyExchange"] = (&clientKeyExchangeMsg{ciphertext: src(1 + n(66))}).marshal()
+	out["serverKeyExchange"] = (&serverKeyExchangeMsg{key: src(1 + n(80))}).marshal()
+	out["serverHelloDone"] = (&serverHelloDoneMsg{}).marshal()
+	out["helloRequest"] = (&helloRequestMsg{}).marshal()
+	out["newSessionTicket"] = (&newSessionTicketMsg{ticket: src(1 + n(60)), lifetimeHint: 3600}).marshal()
+	out["sessionState"] = (&sessionState{vers: VersionTLS12, cipherSuite: u16s(1)[0], createdAt: 1700000000,
+		masterSecret: src(48), certificates: [][]byte{src(1 + n(40)), src(1 + n(40))}}).marshal()
+	cert := Certificate{Certificate: [][]byte{src(1 + n(40)), src(1 + n(40))},
+		OCSPStaple: src(1 + n(20)), SignedCertificateTimestamps: [][]byte{src(1 + n(20))}}
+	out["sessionStateTLS13"] = (&sessionStateTLS13{cipherSuite: TLS_AES_128_GCM_SHA256, createdAt: 1700000000,
+		resumptionSecret: src(32), certificate: cert}).marshal()
+	out["encryptedExtensions"] = (&encryptedExtensionsMsg{alpnProtocol: "h2"}).marshal()
+	out["endOfEarlyData"] = (&endOfEarlyDataMsg{}).marshal()
+	out["keyUpdate"] = (&keyUpdateMsg{updateRequested: n(1) == 1}).marshal()
+	out["newSessionTicketTLS13"] = (&newSessionTicketMsgTLS13{lifetime: 3600, ageAdd: 99, nonce: src(1 + n(8)),
+		label: src(1 + n(40)), maxEarlyData: 16384}).marshal()
+	out["certificateRequestTLS13"] = (&certificateRequestMsgTLS13{ocspStapling: true, scts: true,
+		supportedSignatureAlgorithms: schemes(1 + n(6)), supportedSignatureAlgorithmsCert: schemes(1 + n(4)),
+		certificateAuthorities: [][]byte{src(1 + n(30))}}).marshal()
+	out["certificateTLS13"] = (&certificateMsgTLS13{certificate: cert, ocspStapling: true, scts: true}).marshal()
+	return out
+}
